@@ -109,6 +109,13 @@ pub fn check_archive(c: &mut Case, cfg: &Cfg, files: &[FileSpec], path: &std::pa
                 if cfg.has_attributes() {
                     want.insert("(ATTRIBUTES)".into());
                 }
+                // whatever the configuration was meant to produce: a special file the archive carries is part of the listing
+                for sp in ["(attributes)", "(signature)"] {
+                    if matches!(trap(|| ar.find_file(sp)), Ok(Ok(Some(_)))) {
+                        c.count("special_files_found_by_lookup", 1);
+                        want.insert(sp.to_ascii_uppercase());
+                    }
+                }
                 c.count("listings_checked", 1);
                 let missing: Vec<_> = want.difference(&got).cloned().collect();
                 let extra: Vec<_> = got.difference(&want).cloned().collect();
